@@ -234,7 +234,11 @@ func genLiteral(t *rapid.T) (lit string, valid bool) {
 	bad := rapid.IntRange(0, 9).Draw(t, "bad")
 	switch bad {
 	case 1: // identifier character right after
-		lit += rapid.SampledFrom([]string{"a", "x", "$", "_", "é", "e", "E", "n", "f", "L"}).Draw(t, "idch")
+		idch := rapid.SampledFrom(c12IDChars).Draw(t, "idch")
+		lit += idch
+		if len(idch) > 1 && rapid.Bool().Draw(t, "idtail") {
+			lit += digitsN(t, "idtaild", 1, 3) // ... and digits after a non-ASCII one, as in 2e3 spelled with a look-alike e
+		}
 		// "1e" + digits case: appending 'e' may form... always malformed (exponent without digits or id char)
 		return lit, false
 	case 2: // exponent without digits
@@ -252,9 +256,21 @@ func genLiteral(t *rapid.T) (lit string, valid bool) {
 	return lit, true
 }
 
+// c12IDChars: identifier-start characters that may directly follow a literal (which makes it malformed): ASCII ones
+// and non-ASCII ones, among them look-alikes of e and E (full-width, Cyrillic, Greek, script).
+var c12IDChars = func() []string {
+	out := []string{"a", "x", "$", "_", "e", "E", "n", "f", "L"}
+	for _, r := range []rune{0xe9, 0xff45, 0xff25, 0x0435, 0x0415, 0x03b5, 0x212f, 0x2147, 0x4e2d, 0xb5, 0x2160, 0xff41, 0x1d452} {
+		if ref.IsIDStart(r) {
+			out = append(out, string(r))
+		}
+	}
+	return out
+}()
+
 // TestC12Random: long literals in many arrangements.
 func TestC12Random(t *testing.T) {
-	run := h.Begin("C12", "random", "rapid: integer/fraction/exponent parts of 0-40 digits, occasionally 63-1000 digits (leading zeros, exponent values up to 10^6), all four literal forms, valid single separators, and one injected malformation (identifier character after the literal, exponent without digits, misplaced underscore); oracle and non-trivial rule as in the exhaustive part; distinct by literal text")
+	run := h.Begin("C12", "random", "rapid: integer/fraction/exponent parts of 0-40 digits, occasionally 63-1000 digits (leading zeros, exponent values up to 10^6), all four literal forms, valid single separators, and one injected malformation (an ASCII or non-ASCII identifier character after the literal - full-width and other look-alikes of e, _ and the digits included -, exponent without digits, misplaced underscore); oracle and non-trivial rule as in the exhaustive part; distinct by literal text")
 	defer run.End(t)
 	h.RapidSetup(h.N(4000, 1500000), "c12rand")
 	rapid.Check(t, func(rt *rapid.T) {
